@@ -545,8 +545,15 @@ func (s *swapController) HandlePacket(ctx context.Context, p *orbtypes.ActionPac
 	if err := w.App.BankKeeper.SendCoins(ctx, w.Alice, w.Orb, sdk.NewCoins(out)); err != nil {
 		return err
 	}
-	ta.SetDestinationDenom(out.Denom)
-	ta.SetDestinationAmount(out.Amount)
+	// an action controller may update the two parts of the running coin in either order: odd incoming amounts write the
+	// amount first, even ones the denomination first (the C06 amount menu has both)
+	if out.Amount.BigInt().Bit(1) == 1 { // out = 2*in: bit 1 of out is bit 0 of in
+		ta.SetDestinationAmount(out.Amount)
+		ta.SetDestinationDenom(out.Denom)
+	} else {
+		ta.SetDestinationDenom(out.Denom)
+		ta.SetDestinationAmount(out.Amount)
+	}
 	return nil
 }
 
